@@ -184,7 +184,7 @@ class C01(Prop):
         "tolerance 1e-8 abs + 1e-6 rel in float64; cases whose oracle is NaN (outside an op's domain) are discarded and counted",
         "leaf data from the grid {0.25..2.0} (plus 0, negatives, -inf in the edge profile)",
     )
-    cases = {"quick": 3200, "thorough": 150000}
+    cases = {"quick": 6400, "thorough": 150000}
 
     def strategy(self, tier):
         d = 3 if tier == "quick" else 4
